@@ -140,6 +140,32 @@ def generate(rng: Prng, tier: str) -> dict:
         p["levels"] = [w.choice(pool) for _ in range(1 if p["mc"] else w.randint(1, 3))]
     p["api"] = w.choice(["get_volume", "get_volume", "feature", "feature_shared", "feature_shared"])
     hs = rng.stream("history")
+    h2 = rng.stream("history2")
+    if h2.chance(0.2):
+        # the feature front end's other calling conventions, with ONE spec object per level kept and reused
+        p["api"] = "feature_forms"
+    # a call that fails (or answers nonsense) on an inadmissible tree, in between: it must leave nothing behind
+    p["poison"] = h2.choice(["nan_x_root", "nan_x_mid", "inf_x_last"]) if h2.chance(0.25) else None
+    # the same solid laid out along mirrored / permuted directions, evaluated afterwards in the same process
+    p["followup_axes"] = []
+    if kind != "arbitrary" and not p["mc"] and h2.chance(0.35):
+        for _ in range(h2.choice([1, 1, 2])):
+            a = list(p["axis"])
+            how = h2.choice(["flip1", "flip1", "flip2", "negate", "swap", "perm"])
+            if how == "flip1":
+                ks = [k for k in range(3) if a[k] != 0.0] or [0]
+                k = h2.choice(ks)
+                a[k] = -a[k]
+            elif how == "flip2":
+                k = h2.below(3)
+                a = [(-x if i != k else x) for i, x in enumerate(a)]
+            elif how == "negate":
+                a = [-x for x in a]
+            elif how == "swap":
+                a = [a[1], a[0], a[2]]
+            else:
+                a = [a[2], a[0], a[1]]
+            p["followup_axes"].append(a)
     n_nodes = len(p["tree"]["pid"]) if kind == "arbitrary" else 1 + len(p["arm_a"]) + len(p["arm_b"])
     if kind != "arbitrary":
         if kind == "two_arm" and hs.chance(0.12):
@@ -287,7 +313,34 @@ def install_schedule(world: World, s: dict, axis):
         world.rng_inject[base + k] = [float(x) for x in v]
 
 
+FORMS = ["kw", "tuple", "tuple_override", "tuple", "list", "dict", "tuple", "kw"]
+
+
 def call_volume(tree, level, api: str, shared: dict) -> float:
+    if api == "feature_forms":
+        from swcgeom.analysis import extract_feature
+
+        ext = shared.setdefault("ext", extract_feature(tree))
+        spec = shared.setdefault(("spec", str(level)), ("volume", {"accuracy": level}))
+        k = shared["calls"] = shared.get("calls", -1) + 1
+        form = FORMS[k % len(FORMS)]
+        if form == "tuple_override":
+            # call-time keyword next to the spec's own: whatever it answers, the spec object must not be changed by
+            # it - the plain call that follows has to be evaluated at the spec's level again
+            try:
+                ext.get(spec, accuracy=1 if level != 1 else 2)
+            except Exception:  # noqa: BLE001
+                pass
+            form = "tuple"
+        if form == "kw":
+            out = ext.get("volume", accuracy=level)
+        elif form == "tuple":
+            out = ext.get(spec)
+        elif form == "list":
+            out = ext.get([("length", {}), spec])[1]
+        else:
+            out = ext.get({"volume": spec[1]})["volume"]
+        return float(np.asarray(out).reshape(-1)[0])
     if api in ("feature", "feature_shared"):
         from swcgeom.analysis import extract_feature
 
@@ -303,10 +356,28 @@ def call_volume(tree, level, api: str, shared: dict) -> float:
     return float(get_volume(tree, accuracy=level))
 
 
-def execute(program: dict) -> dict:
-    violation = None
-    states = []
-    steps = 0
+def poison_call(t: dict, level, how: str) -> str:
+    """get_volume on an inadmissible tree (a non-finite coordinate or radius): nothing is demanded of this call
+    itself; what it may have left behind is judged by the evaluations that follow."""
+    from swcgeom.analysis import get_volume
+
+    bad = {k: list(v) for k, v in t.items()}
+    if how == "nan_x_root":
+        bad["x"][0] = float("nan")
+    elif how == "nan_x_mid":
+        bad["x"][len(bad["x"]) // 2] = float("nan")
+    else:
+        bad["x"][-1] = float("inf")
+    try:
+        with np.errstate(all="ignore"):
+            v = get_volume(common.build_tree(bad, source="poison"), accuracy=level)
+        return "returned" if v == v else "returned_nan"
+    except Exception as e:  # noqa: BLE001
+        return type(e).__name__
+
+
+def prepare(program: dict):
+    """-> (tree model with float32 values, axial positions or None, axis or None, overlap class, n)"""
     kind = program["kind"]
     if kind == "arbitrary":
         t = {k: ([f32(v) for v in vals] if k in "xyzr" else list(vals)) for k, vals in program["tree"].items()}
@@ -330,7 +401,16 @@ def execute(program: dict) -> dict:
         t["pid"] = [(-1 if q == -1 else perm[q]) for q in t["pid"]]
         if pos is not None:
             pos = [pos[inv[j]] for j in range(n)]
-    rounds = [None] + list(program.get("edits") or [])
+    return t, pos, axis, overlap, n
+
+
+def execute(program: dict) -> dict:
+    violation = None
+    states = []
+    steps = 0
+    kind = program["kind"]
+    t, pos, axis, overlap, n = prepare(program)
+    rounds = [None] + list(program.get("edits") or []) + [{"axis": a} for a in (program.get("followup_axes") or [])]
     with World() as world:
         try:
             tree = common.build_tree(t, source="gen")
@@ -338,7 +418,16 @@ def execute(program: dict) -> dict:
             for ri, edit in enumerate(rounds):
               if violation:
                   break
-              if edit is not None:
+              schedules = program["schedules"]
+              if edit is not None and "axis" in edit:
+                  # session history: the same solid along another direction, a new tree object, same process
+                  t, pos, axis, overlap, n = prepare(dict(program, axis=edit["axis"]))
+                  tree = common.build_tree(t, source="gen")
+                  shared = {}
+                  schedules = program["schedules"][:1]
+                  world.log("followup_axis", ri, [float.hex(float(v)) for v in edit["axis"]])
+                  world.probe("c14.followup_tree_other_direction")
+              elif edit is not None:
                   i = edit["node"] % n
                   new_r = f32(t["r"][i] * edit["factor"])
                   if edit["on"] == "copy":
@@ -358,7 +447,7 @@ def execute(program: dict) -> dict:
                   else:
                       continue
                   first = None
-                  for si, s in enumerate(program["schedules"]):
+                  for si, s in enumerate(schedules):
                       steps += 1
                       install_schedule(world, s, axis)
                       try:
@@ -368,6 +457,9 @@ def execute(program: dict) -> dict:
                                        "detail": f"{type(e).__name__}: {e}"[:300]}
                           break
                       world.log(str(level), si, s["kind"], float.hex(got))
+                      if si == 0 and program.get("poison"):
+                          world.log("poison", poison_call(t, level, program["poison"]))
+                          world.fired("failed_call_in_between")
                       if not abs(got - exp) <= tol * abs(exp):
                           violation = {"tag": "wrong_volume", "op": f"level{lv if lv < 3 else '>=3'}:{kind}",
                                        "detail": f"accuracy={level!r}: reported {got!r}, reference {exp!r} "
